@@ -976,12 +976,21 @@ def OP_RETURN(tape: Tape, stack: Stack, cache: dict) -> None:
     tape.pointer = len(tape.data)
     cache['returned'] = True
 
+def _flag_key(flag: bytes, known: dict) -> bytes|int:
+    """Maps a flag operand read from the tape to the key used in the
+        flags dict: the operand itself if it is a key, otherwise the
+        signed int it encodes (flags are numbered) if that is a key.
+    """
+    if flag not in known and len(flag) > 0 and bytes_to_int(flag) in known:
+        return bytes_to_int(flag)
+    return flag
+
 def OP_SET_FLAG(tape: Tape, stack: Stack, cache: dict) -> None:
     """Read the next byte from the tape, interpreting as an unsigned int;
         read that many bytes from the tape as a flag; set that flag.
     """
     size = int.from_bytes(tape.read(1), 'big')
-    flag = tape.read(size)
+    flag = _flag_key(tape.read(size), flags)
     sert(flag in flags, 'OP_SET_FLAG unrecognized flag')
     tape.flags[flag] = flags[flag]
 
@@ -990,7 +999,7 @@ def OP_UNSET_FLAG(tape: Tape, stack: Stack, cache: dict) -> None:
         read that many bytes from the tape as a flag; unset that flag.
     """
     size = int.from_bytes(tape.read(1), 'big')
-    flag = tape.read(size)
+    flag = _flag_key(tape.read(size), tape.flags)
     if flag in tape.flags:
         del tape.flags[flag]
 
